@@ -1,7 +1,795 @@
-//! C09 engine (stub)
+//! C09: reassembly of incoming messages under arbitrary chunking, on a real `DuplexConn` connected to a
+//! scripted in-process peer. Single-threaded lock step: the peer `sendmsg`s one chunk (descriptors ride on
+//! the chunk that holds the first byte of their message), the client performs non-blocking `read_once` /
+//! `get_next_message` calls; after every call the result, `bytes_needed_for_current_message()` and
+//! `buffer_contains_whole_message()` are recorded. The model replays the same script.
+//!
+//! The number of bytes each `read_once` took from the socket is OBSERVED (FIONREAD before/after) and is the
+//! kernel's answer handed to the model; the engine counts (`kernel_short_read`) every read that returned
+//! less than min(requested, queued).
+use rustbus::connection::ll_conn::DuplexConn;
+use rustbus::connection::{Error, Timeout};
+use rustbus::message_builder::{MarshalledMessage, MessageBuilder};
+use rustbus::wire::errors::UnmarshalError;
+use rustbus::wire::UnixFd;
+use rustbus::ByteOrder;
+use std::collections::{BTreeSet, HashMap};
+use std::num::NonZeroU32;
+use std::os::unix::io::{AsRawFd, RawFd};
+use std::os::unix::net::UnixStream;
 use vcore::common::*;
+use vcore::eng_wire::guard;
+use vcore::peer;
+
+const BIG: u64 = 4294967296;
+const MAX_GROWTH: usize = 65536;
+
+/// a pool of distinct open files; a descriptor is identified by (st_dev, st_ino) of what it refers to
+struct Pool {
+    dir: std::path::PathBuf,
+    files: Vec<std::fs::File>,
+    ids: HashMap<(u64, u64), usize>,
+}
+
+fn identity(fd: RawFd) -> Option<(u64, u64)> {
+    nix::sys::stat::fstat(fd).ok().map(|s| (s.st_dev as u64, s.st_ino as u64))
+}
+
+impl Pool {
+    fn new(n: usize) -> Pool {
+        let dir = std::env::temp_dir().join(format!("vh_c09_{}", std::process::id()));
+        let _ = std::fs::remove_dir_all(&dir);
+        std::fs::create_dir_all(&dir).unwrap();
+        let mut files = Vec::new();
+        let mut ids = HashMap::new();
+        for i in 0..n {
+            let f = std::fs::File::create(dir.join(format!("f{}", i))).unwrap();
+            ids.insert(identity(f.as_raw_fd()).unwrap(), i);
+            files.push(f);
+        }
+        Pool { dir, files, ids }
+    }
+    fn dup(&self, id: usize) -> UnixFd {
+        UnixFd::new(nix::unistd::dup(self.files[id].as_raw_fd()).unwrap())
+    }
+    fn id_of(&self, fd: RawFd) -> usize {
+        identity(fd).and_then(|k| self.ids.get(&k).copied()).unwrap_or(999)
+    }
+}
+impl Drop for Pool {
+    fn drop(&mut self) {
+        let _ = std::fs::remove_dir_all(&self.dir);
+    }
+}
+
+fn open_fds() -> usize {
+    std::fs::read_dir("/proc/self/fd").map(|d| d.count()).unwrap_or(0)
+}
+
+fn cksum(bs: &[u8]) -> u64 {
+    let (mut a, mut b) = (1u64, 0u64);
+    for x in bs {
+        a = (a + *x as u64) % 65521;
+        b = (b + a) % 65521;
+    }
+    b * 65536 + a
+}
+
+fn dots(ids: &[usize]) -> String {
+    if ids.is_empty() {
+        "-".into()
+    } else {
+        ids.iter().map(|x| x.to_string()).collect::<Vec<_>>().join(".")
+    }
+}
+
+/// one message as the peer writes it
+struct Frame {
+    bytes: Vec<u8>,
+    fds: Vec<usize>,
+    serial: u32,
+    member: String,
+    body: Vec<u8>,
+    /// keeps the descriptors to send alive
+    msg: Option<MarshalledMessage>,
+}
+
+fn gen_frame(rng: &mut Prng, pool: &Pool, idx: usize, serial: u32, body_len: usize, fds: &[usize]) -> Frame {
+    let bo = if rng.chance(1, 3) { ByteOrder::BigEndian } else { ByteOrder::LittleEndian };
+    let member = format!("M{}x{}", idx, rng.below(1000));
+    let mut msg = match rng.below(4) {
+        0 => MessageBuilder::with_byteorder(bo).signal("a.b", member.clone(), "/o").build(),
+        1 => MessageBuilder::with_byteorder(bo).call(member.clone()).on("/p/q").build(),
+        2 => MessageBuilder::with_byteorder(bo)
+            .call(member.clone())
+            .on("/p")
+            .with_interface("io.killing.spark")
+            .at("x.y.z")
+            .build(),
+        _ => MessageBuilder::with_byteorder(bo).signal("some.inter.face", member.clone(), "/").to(":1.7").build(),
+    };
+    if body_len > 0 {
+        let data: Vec<u8> = (0..body_len).map(|_| rng.next() as u8).collect();
+        match rng.below(3) {
+            0 => msg.body.push_param(data.as_slice()).unwrap(),
+            1 => {
+                msg.body.push_param(rng.next() as u8).unwrap();
+                msg.body.push_param(data.as_slice()).unwrap()
+            }
+            _ => {
+                msg.body.push_param(data.as_slice()).unwrap();
+                msg.body.push_param(rng.next() as u16).unwrap()
+            }
+        }
+    }
+    for id in fds {
+        let u = pool.dup(*id);
+        msg.body.push_param(&u).unwrap();
+    }
+    let mut hdr = Vec::new();
+    rustbus::wire::marshal::marshal(&msg, NonZeroU32::new(serial).unwrap(), &mut hdr).unwrap();
+    let body = msg.get_buf().to_vec();
+    let mut bytes = hdr;
+    bytes.extend_from_slice(&body);
+    Frame { bytes, fds: fds.to_vec(), serial, member, body, msg: Some(msg) }
+}
+
+/// a frame of raw bytes (error cases): no descriptors
+fn raw_frame(bytes: Vec<u8>) -> Frame {
+    Frame { bytes, fds: vec![], serial: 0, member: String::new(), body: vec![], msg: None }
+}
+
+struct Link {
+    conn: DuplexConn,
+    server: UnixStream,
+}
+
+fn inq(fd: RawFd) -> usize {
+    let mut n: libc::c_int = 0;
+    unsafe {
+        libc::ioctl(fd, libc::FIONREAD, &mut n);
+    }
+    n as usize
+}
+
+fn class(e: &Error) -> &'static str {
+    match e {
+        Error::TimedOut => "to",
+        Error::ConnectionClosed => "closed",
+        Error::UnmarshalError(UnmarshalError::MessageTooLong) => "toolong",
+        Error::UnmarshalError(
+            UnmarshalError::InvalidByteOrder
+            | UnmarshalError::InvalidMessageType
+            | UnmarshalError::InvalidProtocolVersion
+            | UnmarshalError::InvalidSerial,
+        ) => "invalid",
+        Error::UnmarshalError(_) => "malformed",
+        _ => "ioerror",
+    }
+}
+
+#[derive(Clone, Copy, PartialEq)]
+enum Policy {
+    /// after every chunk: get_next_message until it times out
+    GetEach,
+    /// the documented loop: guarded read_once, get_next_message when the buffer is complete
+    ReadLoop,
+    /// 0..3 random calls (get / guarded read_once / read_once on an incomplete buffer) after every chunk
+    Mixed,
+    /// like Mixed, only read_once / guarded read_once until the end of the stream
+    ReadOnly,
+    /// read_once even when the buffer already holds a complete message (zero length recvmsg)
+    ZeroRead,
+}
+
+struct Received {
+    serial: u32,
+    member: String,
+    body: Vec<u8>,
+    fds: Vec<usize>,
+}
+
+struct Runner<'a> {
+    out: &'a mut Out,
+    pool: &'a Pool,
+    link: Option<Link>,
+}
+
+struct Scn<'a> {
+    frames: &'a [Frame],
+    script: Vec<String>,
+    obs: Vec<String>,
+    received: Vec<Received>,
+    problems: Vec<String>,
+    filled: usize,
+    dirty: bool,
+    /// chunks sent since the socket queue was last seen empty
+    backlog: usize,
+}
+
+impl<'a> Runner<'a> {
+    fn link(&mut self) -> &mut Link {
+        if self.link.is_none() {
+            let (conn, server) = peer::connect_pair(true);
+            self.out.hit("connections");
+            self.link = Some(Link { conn, server });
+        }
+        self.link.as_mut().unwrap()
+    }
+
+    /// one client call; kind: 'g' get_next_message, 'r' read_once, 'm' read_once unless the buffer is complete
+    fn op(&mut self, s: &mut Scn, kind: char) -> String {
+        let pool = self.pool;
+        let link = self.link();
+        let fd = link.conn.recv.as_raw_fd();
+        let inq0 = inq(fd);
+        let needed0 = link.conn.recv.bytes_needed_for_current_message().ok();
+        let whole0 = link.conn.recv.buffer_contains_whole_message().ok();
+        let recv = &mut link.conn.recv;
+        let res: Result<String, String> = guard(|| match kind {
+            'g' => match recv.get_next_message(Timeout::Nonblock) {
+                Ok(m) => {
+                    let fds: Vec<usize> = m
+                        .body
+                        .get_fds()
+                        .iter()
+                        .map(|u| u.get_raw_fd().map(|r| pool.id_of(r)).unwrap_or(998))
+                        .collect();
+                    let r = Received {
+                        serial: m.dynheader.serial.map(|x| x.get()).unwrap_or(0),
+                        member: m.dynheader.member.clone().unwrap_or_default(),
+                        body: m.get_buf().to_vec(),
+                        fds,
+                    };
+                    let t = format!("msg:{}:{}:{}:{}", r.serial, r.body.len(), cksum(&r.body), dots(&r.fds));
+                    s.received.push(r);
+                    // m dropped here: its descriptors are closed
+                    t
+                }
+                Err(e) => class(&e).to_string(),
+            },
+            'r' => match recv.read_once(Timeout::Nonblock) {
+                Ok(()) => "ok".to_string(),
+                Err(e) => class(&e).to_string(),
+            },
+            _ => match recv.buffer_contains_whole_message() {
+                Ok(true) => "skip".to_string(),
+                Err(e) => class(&e).to_string(),
+                Ok(false) => match recv.read_once(Timeout::Nonblock) {
+                    Ok(()) => "ok".to_string(),
+                    Err(e) => class(&e).to_string(),
+                },
+            },
+        });
+        let link = self.link.as_mut().unwrap();
+        let inq1 = inq(fd);
+        let consumed = inq0.saturating_sub(inq1);
+        let res = match res {
+            Ok(r) => r,
+            Err(p) => {
+                s.problems.push(format!("panic in call '{}': {}", kind, p));
+                s.dirty = true;
+                "panic".to_string()
+            }
+        };
+        let needed = match link.conn.recv.bytes_needed_for_current_message() {
+            Ok(n) => n.to_string(),
+            Err(e) => class(&e).to_string(),
+        };
+        let whole = match link.conn.recv.buffer_contains_whole_message() {
+            Ok(true) => "t".to_string(),
+            Ok(false) => "f".to_string(),
+            Err(e) => class(&e).to_string(),
+        };
+        // the kernel's answer, as observed
+        let k: u64 = if consumed > 0 {
+            consumed as u64
+        } else if inq0 == 0 {
+            0
+        } else {
+            BIG
+        };
+        s.script.push(match kind {
+            'g' => "g".to_string(),
+            c => format!("{}{}", c, k),
+        });
+        // direct checks that need no oracle
+        if res == "to" && consumed == 0 {
+            // a call that timed out without receiving anything must not change what the connection reports
+            let n_now = link.conn.recv.bytes_needed_for_current_message().ok();
+            let w_now = link.conn.recv.buffer_contains_whole_message().ok();
+            if n_now != needed0 || w_now != whole0 {
+                s.problems.push(format!(
+                    "timed-out call '{}' changed the connection: needed {:?}->{:?}, whole {:?}->{:?}",
+                    kind, needed0, n_now, whole0, w_now
+                ));
+            }
+            self.out.hit("timeout_noop_checked");
+        }
+        if res == "to" && inq0 > 0 && kind == 'g' && consumed == 0 {
+            s.problems.push("get_next_message timed out although bytes were queued".to_string());
+        }
+        if needed0.is_none() && consumed != 0 {
+            // the announcement was already refused before the call: nothing may be read
+            s.problems.push(format!("call on a refused announcement ({}) took {} bytes from the socket", res, consumed));
+        }
+        if kind != 'g' && res == "ok" {
+            if let Some(n0) = needed0 {
+                let req = usize::min(n0, s.filled + MAX_GROWTH).saturating_sub(s.filled);
+                if consumed > req {
+                    s.problems.push(format!("read_once took {} bytes, more than the {} it may request", consumed, req));
+                }
+                if consumed < usize::min(req, inq0) {
+                    self.out.hit("kernel_short_read");
+                }
+            }
+        }
+        s.filled += consumed;
+        if res.starts_with("msg:") {
+            s.filled = 0;
+        }
+        if matches!(res.as_str(), "closed" | "invalid" | "toolong" | "malformed" | "panic" | "ioerror") {
+            s.dirty = true;
+        }
+        if res == "closed" {
+            s.problems.push(format!(
+                "call '{}' reported ConnectionClosed although the peer is connected ({} bytes queued)",
+                kind, inq0
+            ));
+        }
+        if inq1 == 0 {
+            s.backlog = 0;
+        }
+        self.out.hit(&format!("res_{}_{}", kind, res.split(':').next().unwrap()));
+        s.obs.push(format!("{}/{}/{}", res, needed, whole));
+        res
+    }
+
+    fn whole(&mut self) -> bool {
+        matches!(self.link().conn.recv.buffer_contains_whole_message(), Ok(true))
+    }
+
+    fn drain(&mut self, s: &mut Scn) {
+        for _ in 0..s.frames.len() + 2 {
+            let r = self.op(s, 'g');
+            if !r.starts_with("msg:") {
+                break;
+            }
+        }
+    }
+
+    /// run one scenario: frames, chunk sizes (sum = stream length), call policy
+    fn scenario(&mut self, rng: &mut Prng, frames: &[Frame], chunks: &[usize], policy: Policy, valid: bool, tag: &str) {
+        self.link();
+        let fds_with_link = open_fds();
+        let stream: Vec<u8> = frames.iter().flat_map(|f| f.bytes.iter().copied()).collect();
+        let mut starts = Vec::new();
+        let mut p = 0;
+        for f in frames {
+            starts.push(p);
+            p += f.bytes.len();
+        }
+        let mut s = Scn {
+            frames,
+            script: Vec::new(),
+            obs: Vec::new(),
+            received: Vec::new(),
+            problems: Vec::new(),
+            filled: 0,
+            dirty: false,
+            backlog: 0,
+        };
+        let mut pos = 0;
+        for (ci, &c) in chunks.iter().enumerate() {
+            let mut raw: Vec<RawFd> = Vec::new();
+            for (i, f) in frames.iter().enumerate() {
+                if !f.fds.is_empty() {
+                    if starts[i] == pos {
+                        raw = f.msg.as_ref().unwrap().body.get_raw_fds();
+                    } else if starts[i] > pos && starts[i] < pos + c {
+                        panic!("engine bug: chunk spans into a descriptor-carrying message");
+                    }
+                }
+            }
+            let sent = peer::send_with_fds(&self.link().server, &stream[pos..pos + c], &raw);
+            assert_eq!(sent, c, "short write at the peer");
+            pos += c;
+            s.script.push(format!("a{}", c));
+            s.backlog += 1;
+            let last = ci + 1 == chunks.len();
+            match policy {
+                Policy::GetEach => self.drain(&mut s),
+                Policy::ReadLoop => loop {
+                    let r = self.op(&mut s, 'm');
+                    if r == "skip" || self.whole() {
+                        let g = self.op(&mut s, 'g');
+                        if !g.starts_with("msg:") {
+                            break;
+                        }
+                    } else if r != "ok" {
+                        break;
+                    }
+                },
+                Policy::Mixed | Policy::ReadOnly => {
+                    let n = rng.below(4);
+                    for _ in 0..n {
+                        let pick = rng.below(10);
+                        let kind = if policy == Policy::ReadOnly {
+                            if pick < 5 { 'm' } else { 'r' }
+                        } else if pick < 4 {
+                            'g'
+                        } else if pick < 7 {
+                            'm'
+                        } else {
+                            'r'
+                        };
+                        // read_once on a complete buffer is the ZeroRead family's business
+                        let kind = if kind == 'r' && self.whole() { 'm' } else { kind };
+                        self.op(&mut s, kind);
+                        if s.dirty {
+                            break;
+                        }
+                    }
+                    if s.backlog > 40 {
+                        self.drain(&mut s);
+                    }
+                }
+                Policy::ZeroRead => {
+                    if last {
+                        // read_once until the first message is complete, then once more
+                        for _ in 0..8 {
+                            if self.whole() {
+                                break;
+                            }
+                            self.op(&mut s, 'r');
+                        }
+                        self.op(&mut s, 'r');
+                    }
+                }
+            }
+            if s.dirty {
+                break;
+            }
+        }
+        if !s.dirty || policy == Policy::ZeroRead {
+            self.drain(&mut s);
+        }
+        if !s.dirty {
+            // everything has been handed out: two more calls must find nothing
+            self.op(&mut s, 'g');
+            self.op(&mut s, 'r');
+        }
+        let complete = pos == stream.len();
+        let req = format!(
+            "c09.run {} {}",
+            frames.iter().map(|f| format!("{}/{}", hex(&f.bytes), dots(&f.fds))).collect::<Vec<_>>().join("|"),
+            s.script.join(",")
+        );
+        // ---- the property, directly ----
+        if valid {
+            for (i, r) in s.received.iter().enumerate() {
+                match frames.get(i) {
+                    None => s.problems.push(format!("message {} returned but only {} were sent", i, frames.len())),
+                    Some(f) => {
+                        let want_fds: Vec<usize> = f.fds.iter().copied().take(10).collect();
+                        if r.serial != f.serial || r.member != f.member {
+                            s.problems.push(format!(
+                                "message {} out of order or wrong header: serial {} member {} (sent {} {})",
+                                i, r.serial, r.member, f.serial, f.member
+                            ));
+                        } else if r.body != f.body {
+                            s.problems.push(format!("message {} body differs from what was sent ({} vs {} bytes)", i, r.body.len(), f.body.len()));
+                        }
+                        if r.fds != want_fds {
+                            s.problems.push(format!(
+                                "message {} came with descriptors [{}], sent with [{}]",
+                                i,
+                                dots(&r.fds),
+                                dots(&want_fds)
+                            ));
+                        }
+                    }
+                }
+            }
+            if complete && !s.dirty && s.received.len() != frames.len() {
+                s.problems.push(format!("{} messages sent completely, {} returned", frames.len(), s.received.len()));
+            }
+            if s.dirty && policy != Policy::ZeroRead {
+                s.problems.push("a call failed on a stream of valid messages".to_string());
+            }
+        }
+        let nrecv = s.received.len();
+        let dirty = s.dirty;
+        let (script_len, obs, problems) = (s.script.len(), s.obs.join(";"), std::mem::take(&mut s.problems));
+        drop(s);
+        if dirty {
+            self.link = None; // the connection is wedged or suspect: start over
+        }
+        // descriptors: everything received has been dropped; nothing may stay open
+        // (a discarded connection closes 3: two at the client, one at the peer)
+        let fds_after = open_fds();
+        let expect = if dirty { fds_with_link - 3 } else { fds_with_link };
+        let mut problems = problems;
+        if fds_after != expect {
+            problems.push(format!(
+                "descriptor leak: {} descriptors stay open after the scenario (expected {})",
+                fds_after, expect
+            ));
+        }
+        for p in &problems {
+            self.out.violation(&req, &format!("[{}] {}", tag, p));
+        }
+        self.out.hit(&format!("scn_{}", tag));
+        self.out.hit_n("messages_received", nrecv as u64);
+        self.out.hit_n("chunks", chunks.len() as u64);
+        self.out.hit_n("calls", (script_len - chunks.len().min(script_len)) as u64);
+        self.out.case(&req, &obs, chunks.len() >= 2);
+    }
+}
+
+/// chunk sizes from split points; forced splits in front of descriptor-carrying messages, chunks ≤ 90000
+fn chunks_from(splits: &BTreeSet<usize>, frames: &[Frame]) -> Vec<usize> {
+    let mut pts: BTreeSet<usize> = splits.clone();
+    let mut p = 0;
+    for f in frames {
+        if !f.fds.is_empty() && p > 0 {
+            pts.insert(p);
+        }
+        p += f.bytes.len();
+    }
+    let total = p;
+    pts.retain(|x| *x > 0 && *x < total);
+    let mut out = Vec::new();
+    let mut prev = 0;
+    for x in pts.iter().copied().chain(std::iter::once(total)) {
+        let mut len = x - prev;
+        while len > 90000 {
+            out.push(90000);
+            len -= 90000;
+        }
+        if len > 0 {
+            out.push(len);
+        }
+        prev = x;
+    }
+    out
+}
+
+fn gen_set(rng: &mut Prng, pool: &Pool, n: usize, serial0: &mut u32, max_body: usize) -> Vec<Frame> {
+    (0..n)
+        .map(|i| {
+            let body_len = match rng.below(4) {
+                0 => 0,
+                1 => rng.range(1, 9) as usize,
+                _ => rng.range(1, max_body as u64) as usize,
+            };
+            let nf = match rng.below(5) {
+                0 | 1 => 0,
+                2 => 1,
+                3 => 2,
+                _ => 3,
+            };
+            let fds: Vec<usize> = (0..nf).map(|_| rng.below(pool.files.len() as u64) as usize).collect();
+            *serial0 += 1 + rng.below(5) as u32;
+            gen_frame(rng, pool, i, *serial0, body_len, &fds)
+        })
+        .collect()
+}
+
+fn set_u32(b: &mut [u8], off: usize, v: u32) {
+    let bytes = if b[0] == b'l' { v.to_le_bytes() } else { v.to_be_bytes() };
+    b[off..off + 4].copy_from_slice(&bytes);
+}
 
 pub fn run(cfg: &Cfg) {
-    let out = Out::new(&cfg.outdir);
-    out.finish("stub", false);
+    std::panic::set_hook(Box::new(|_| {}));
+    let mut out = Out::new(&cfg.outdir);
+    let mut rng = Prng::new(cfg.seed);
+    let pool = Pool::new(12);
+    let mut serial: u32 = 10;
+    let mut exhaustive_pairs = false;
+    {
+        let mut rn = Runner { out: &mut out, pool: &pool, link: None };
+        let policies = [Policy::GetEach, Policy::ReadLoop, Policy::Mixed, Policy::ReadOnly];
+        let nsets = if cfg.thorough { 6 } else { 3 };
+        for si in 0..nsets {
+            let nframes = if cfg.thorough && si == 0 {
+                2
+            } else if cfg.thorough && si >= 3 {
+                rng.range(4, 6) as usize
+            } else {
+                rng.range(2, 3) as usize
+            };
+            let frames = gen_set(&mut rng, &pool, nframes, &mut serial, if si == 0 { 24 } else { 120 });
+            let total: usize = frames.iter().map(|f| f.bytes.len()).sum();
+            // every single split point, with every policy
+            for sp in 1..total {
+                for (pi, pol) in policies.iter().enumerate() {
+                    if !cfg.thorough && (sp + pi) % 2 == 1 {
+                        continue;
+                    }
+                    let ch = chunks_from(&BTreeSet::from([sp]), &frames);
+                    rn.scenario(&mut rng, &frames, &ch, *pol, true, "split1");
+                }
+            }
+            // pairs of split points: exhaustive for the first set in the thorough tier, sampled otherwise
+            if cfg.thorough && si == 0 && total <= 320 {
+                exhaustive_pairs = true;
+                rn.out.hit_n("split2_exhaustive_stream_len", total as u64);
+                for a in 1..total {
+                    for b in a + 1..total {
+                        let ch = chunks_from(&BTreeSet::from([a, b]), &frames);
+                        let pol = policies[(a + b) % 4];
+                        rn.scenario(&mut rng, &frames, &ch, pol, true, "split2");
+                    }
+                }
+            } else {
+                let n = if cfg.thorough { 4000 } else { 500 };
+                for _ in 0..n {
+                    let a = rng.range(1, total as u64 - 1) as usize;
+                    let b = rng.range(1, total as u64 - 1) as usize;
+                    let ch = chunks_from(&BTreeSet::from([a, b]), &frames);
+                    let pol = *rng.pick(&policies);
+                    rn.scenario(&mut rng, &frames, &ch, pol, true, "split2");
+                }
+            }
+            // one byte at a time
+            for pol in policies.iter() {
+                let all: BTreeSet<usize> = (1..total).collect();
+                let ch = chunks_from(&all, &frames);
+                rn.scenario(&mut rng, &frames, &ch, *pol, true, "onebyte");
+            }
+            // random compositions
+            let n = if cfg.thorough { 1500 } else { 200 };
+            for _ in 0..n {
+                let mut sp = BTreeSet::new();
+                let k = rng.range(2, 12);
+                for _ in 0..k {
+                    sp.insert(rng.range(1, total as u64 - 1) as usize);
+                }
+                let ch = chunks_from(&sp, &frames);
+                let pol = *rng.pick(&policies);
+                rn.scenario(&mut rng, &frames, &ch, pol, true, "random");
+            }
+            // whole stream in one write
+            for pol in policies.iter() {
+                let ch = chunks_from(&BTreeSet::new(), &frames);
+                rn.scenario(&mut rng, &frames, &ch, *pol, true, "onewrite");
+            }
+        }
+        // bodies beyond the 64 KiB growth step
+        let nbig = if cfg.thorough { 24 } else { 3 };
+        for bi in 0..nbig {
+            let big_len = if bi % 3 == 2 { rng.range(131000, 150000) } else { rng.range(65000, 80000) } as usize;
+            let nf = rng.below(3) as usize;
+            let fds: Vec<usize> = (0..nf).map(|_| rng.below(12) as usize).collect();
+            serial += 1;
+            let small1 = gen_set(&mut rng, &pool, 1, &mut serial, 40);
+            serial += 1;
+            let bigf = gen_frame(&mut rng, &pool, 1, serial, big_len, &fds);
+            let small2 = gen_set(&mut rng, &pool, 1, &mut serial, 40);
+            let frames: Vec<Frame> = small1.into_iter().chain(std::iter::once(bigf)).chain(small2).collect();
+            let total: usize = frames.iter().map(|f| f.bytes.len()).sum();
+            let mut sp = BTreeSet::new();
+            for _ in 0..rng.range(0, 5) {
+                sp.insert(rng.range(1, total as u64 - 1) as usize);
+            }
+            let ch = chunks_from(&sp, &frames);
+            let pol = policies[bi % 4];
+            rn.scenario(&mut rng, &frames, &ch, pol, true, "big");
+        }
+        // more descriptors than one control buffer holds (documented limit: 10 per message)
+        for nfd in [10usize, 11, 13] {
+            serial += 1;
+            let fds: Vec<usize> = (0..nfd).map(|i| i % 12).collect();
+            let f0 = gen_frame(&mut rng, &pool, 0, serial, 5, &fds);
+            let f1 = gen_set(&mut rng, &pool, 1, &mut serial, 20);
+            let frames: Vec<Frame> = std::iter::once(f0).chain(f1).collect();
+            let total: usize = frames.iter().map(|f| f.bytes.len()).sum();
+            let ch = chunks_from(&BTreeSet::from([rng.range(1, total as u64 - 1) as usize]), &frames);
+            rn.scenario(&mut rng, &frames, &ch, Policy::GetEach, true, if nfd > 10 { "over10fds" } else { "fds10" });
+        }
+        // error cases: the announcement is refused and nothing is read
+        let nerr = if cfg.thorough { 6 } else { 2 };
+        for round in 0..nerr {
+            for kind in 0..9 {
+                let good = gen_set(&mut rng, &pool, 2, &mut serial, 30);
+                let mut bad = good[1].bytes.clone();
+                let name = match kind {
+                    0 => {
+                        bad[0] = b'x';
+                        "bad_endian"
+                    }
+                    1 => {
+                        bad[1] = if round % 2 == 0 { 0 } else { 5 };
+                        "bad_type"
+                    }
+                    2 => {
+                        bad[3] = 2;
+                        "bad_version"
+                    }
+                    3 => {
+                        set_u32(&mut bad, 8, 0);
+                        "zero_serial"
+                    }
+                    4 => {
+                        set_u32(&mut bad, 12, 64 * 1024 * 1024 + 1 + 8 * round as u32);
+                        "fields_too_long"
+                    }
+                    5 => {
+                        set_u32(&mut bad, 4, 128 * 1024 * 1024 - 8 * round as u32);
+                        "message_too_long"
+                    }
+                    6 => {
+                        set_u32(&mut bad, 4, u32::MAX - round as u32);
+                        "announce_4g"
+                    }
+                    7 => {
+                        bad[16] = 0; // header field code 0
+                        "bad_field"
+                    }
+                    _ => {
+                        // make the padding between header and body non-zero if there is any
+                        let fl = u32::from_le_bytes(if bad[0] == b'l' {
+                            [bad[12], bad[13], bad[14], bad[15]]
+                        } else {
+                            [bad[15], bad[14], bad[13], bad[12]]
+                        }) as usize;
+                        let end = 16 + fl;
+                        if end % 8 != 0 && end < bad.len() {
+                            bad[end] = 7;
+                        }
+                        "bad_padding"
+                    }
+                };
+                let mut frames: Vec<Frame> = Vec::new();
+                let mut it = good.into_iter();
+                frames.push(it.next().unwrap());
+                let second = it.next().unwrap();
+                let second_fds = second.fds.clone();
+                let mut rf = raw_frame(bad);
+                // keep the descriptors of the corrupted message riding on its first byte
+                rf.fds = second_fds;
+                rf.msg = second.msg;
+                frames.push(rf);
+                let extra = gen_set(&mut rng, &pool, 1, &mut serial, 30);
+                frames.extend(extra);
+                let total: usize = frames.iter().map(|f| f.bytes.len()).sum();
+                let mut sp = BTreeSet::new();
+                for _ in 0..rng.range(0, 3) {
+                    sp.insert(rng.range(1, total as u64 - 1) as usize);
+                }
+                // announcements of huge messages: never send beyond the real bytes
+                let ch = chunks_from(&sp, &frames);
+                let pol = policies[(kind + round) % 4];
+                rn.scenario(&mut rng, &frames, &ch, pol, false, name);
+            }
+        }
+        // read_once on a buffer that already holds a complete message: zero length recvmsg
+        for variant in 0..4 {
+            serial += 1;
+            let a = gen_frame(&mut rng, &pool, 0, serial, 3, &[]);
+            serial += 1;
+            let bfds: Vec<usize> = match variant {
+                0 | 3 => vec![],
+                1 => vec![4],
+                _ => vec![2, 7, 7],
+            };
+            let b = gen_frame(&mut rng, &pool, 1, serial, 9, &bfds);
+            let frames = if variant == 3 { vec![a] } else { vec![a, b] };
+            let ch = chunks_from(&BTreeSet::new(), &frames);
+            rn.scenario(&mut rng, &frames, &ch, Policy::ZeroRead, true, "zero_length_recvmsg");
+        }
+    }
+    drop(pool);
+    out.finish(
+        "streams of 2-6 generated messages (call/signal, both byte orders, body 0..150000 bytes, 0-3 (10, 11, 13) real descriptors) \
+         written by a scripted peer in chunks: every single split point x 4 call policies, pairs of split points (exhaustive for one \
+         stream in the thorough tier, sampled otherwise), one byte at a time, random compositions, one write; after each chunk \
+         non-blocking get_next_message / read_once / guarded read_once calls incl. calls that find nothing; corrupted fixed headers, \
+         oversized announcements, undecodable complete frames; read_once on a complete buffer. A case is one (stream, chunking, call \
+         script); non-trivial = at least two chunks",
+        false,
+    );
+    let _ = exhaustive_pairs;
 }
